@@ -14,7 +14,7 @@ def run(ctx):
     if ctx.quick:
         small_sizes = [1, 17]
         algos = ["sha256", rng.choice(["sha512", "sha1", "sha384", "xxh3"])]
-        large_sizes = [8193, 70001]
+        large_sizes = [8193, 20011]
     else:
         small_sizes = [1, 2, 17, 64]
         algos = list(gen.ALGOS)
